@@ -2,7 +2,8 @@
 printing the same tokens as coq/model/H3Parse.v exec_h3, defect probes, generators, normalisation.
 
 Case format (JSON):
-  {"client": bool, "dgram": bool, "ops": [["s", sid, hexdata, fin], ["d", hexdata], ["o"]]}
+  {"client": bool, "dgram": bool, "ops": [["s", sid, hexdata, fin], ["d", hexdata], ["o"], ["f", sid]]}
+  ["f", sid] = the local application ends its sending side of stream sid (send_headers(..., end_stream=True))
 """
 import itertools
 import traceback
@@ -253,11 +254,24 @@ def run_impl(case):
     r = RunResult()
     r.out, r.tables, r.events, r.exn, r.closes, r.rec = [], [], [], None, [], rec
     r.after_close_events = 0
+    r.local_sends = 0
+    r.blocked_calls = 0
+    r.resumed_calls = 0
     _REC = rec
     try:
         for op in case["ops"]:
             rec.reset()
             nclose = len(q.closes)
+            if op[0] == "f":
+                # local send with end_stream=True; misuse errors of the local API (already ended) are not the subject
+                try:
+                    h.send_headers(op[1], list(REQ if case["client"] else RESP), end_stream=True)
+                except Exception:  # noqa
+                    pass
+                r.local_sends += 1
+                r.tables.append([0, 0, 0, 0, 0])
+                r.out += [0, 0] + _obs(h)
+                continue
             try:
                 evs = h.handle_event(make_event(op))
             except Exception as e:   # noqa: the property is exactly that this never happens
@@ -267,6 +281,8 @@ def run_impl(case):
                 r.tables.append(rec.tokens())
                 break
             r.tables.append(rec.tokens())
+            r.blocked_calls += sum(1 for v in rec.dec.values() if v[0] == 1)
+            r.resumed_calls += sum(1 for v in rec.res.values() if v[0] == 0)
             if len(q.closes) > nclose:
                 code = q.closes[-1][0]
                 r.closes.append(code)
@@ -309,6 +325,8 @@ def encode_case(case, tables, fixes):
         elif op[0] == "d":
             d = H(op[1])
             t += [1, len(d)] + list(d)
+        elif op[0] == "f":
+            t += [3, op[1]]
         else:
             t += [2]
     return t
@@ -794,12 +812,54 @@ def gen_connection_case(rng, malformed=0.0, dynamic=None, chunked=True, blocked=
         ops = sequential(per, [ctrl_sid, enc_sid, dec_sid]) + interleave(rng, {s: per[s] for s in streams})
     else:
         ops = sequential(per, order)
+    for sid in sorted(streams):
+        if sid % 4 == 0 and rng.random() < 0.4:
+            ops.insert(rng.randint(0, len(ops)), ["f", sid])
     if rng.random() < 0.2:
         ops.insert(rng.randint(0, len(ops)), ["d", (uvar(rng.randint(0, 100)) + gen_body(rng)).hex() if rng.random() < 0.8 else ""])
     if rng.random() < 0.1:
         ops.insert(rng.randint(0, len(ops)), ["o"])
     case = {"client": client, "dgram": rng.random() < 0.8, "ops": ops}
     return case, allstreams, order
+
+
+def gen_blocked_closed_case(rng):
+    """A message stream whose HEADERS block needs dynamic-table entries that arrive later on the encoder stream, with
+    the stream closed in both directions (FIN received, local sending side ended) before it is unblocked."""
+    client = rng.random() < 0.6
+    wire = Wire(True)
+    hs = (HEADER_POOL_RESP[3] if client else HEADER_POOL_REQ[2]) if rng.random() < 0.7 else \
+        ([(b":status", b"200"), (b"x-k%d" % rng.randint(0, 9), b"w" * rng.randint(20, 60))] if client else
+         list(REQ) + [(b"x-k%d" % rng.randint(0, 9), b"w" * rng.randint(20, 60))])
+    wire.block(400, hs)                       # first use inserts the entries, the blocks below refer to them
+    nstreams = rng.choice([1, 1, 2, 3])
+    per, sids = {}, []
+    for i in range(nstreams):
+        sid = request_sid(i)
+        sids.append(sid)
+        body = frame(1, wire.block(sid, hs))
+        if rng.random() < 0.5:
+            body += frame(0, gen_body(rng))
+        if rng.random() < 0.3:
+            body += frame(1, wire.block(sid, [(b"x-trailer", b"1")]))
+        fin = rng.random() < 0.85
+        per[sid] = split_random(rng, body, fin, maxchunks=3)
+    ctrl, enc = peer_uni(client, 0), peer_uni(client, 1)
+    ops = [["s", ctrl, control_prefix().hex(), 0]] if rng.random() < 0.7 else []
+    ops += interleave(rng, per)
+    for sid in sids:
+        if rng.random() < 0.85:
+            ops.insert(rng.randint(0, len(ops)), ["f", sid])
+    encdata = uvar(2) + wire.enc_stream
+    if rng.random() < 0.2:                    # a part of the encoder stream may come early
+        cut = rng.randint(1, len(encdata) - 1)
+        ops.insert(rng.randint(0, len(ops)), ["s", enc, encdata[:cut].hex(), 0])
+        encdata = encdata[cut:]
+    for d, _f in split_random(rng, encdata, False, maxchunks=3):
+        ops.append(["s", enc, bytes(d).hex(), 0])
+    if rng.random() < 0.3:                    # something after the unblocking
+        ops.append(["s", request_sid(nstreams), frame(1, wire.block(request_sid(nstreams), hs)).hex(), 1])
+    return {"client": client, "dgram": True, "ops": ops}
 
 
 def whole_case(case, allstreams, order):
